@@ -504,7 +504,8 @@ static void* wd_main(void* arg) {
   const long livelock_hits = vp_param("livelock_hits", 30000000);
   const long q_need = vp_param("quiesce_samples", 4);
   uint64_t last_p = atomic_load(&vp_progress_ctr);
-  long base_h = 0;
+  long base_h = 0, base_rx = 0;
+  const long relax_limit = vp_param("relax_limit", 4000000000L);
   int q_streak = 0;
   for (;;) {
     vp_real_sleep_us(5000);
@@ -530,16 +531,19 @@ static void* wd_main(void* arg) {
       }
     }
     if (vp_cfg.mode != VP_MODE_NOHOOK) {
+      // logical steps without a single completed client operation. Pure spinning (cpu_relax) is judged against a far
+      // larger bound: under kernel-thread oversubscription a ticket-lock convoy legitimately spins for a long time.
       const uint64_t p = atomic_load(&vp_progress_ctr);
-      const long h = vp_hook_hits(FV_CPU_RELAX) + vp_hook_hits(FV_SWITCH_PRE) + vp_hook_hits(FV_WAKE_SPIN) +
-                     vp_hook_hits(FV_CAS2_PRE);
+      const long h = vp_hook_hits(FV_SWITCH_PRE) + vp_hook_hits(FV_WAKE_SPIN) + vp_hook_hits(FV_CAS2_PRE);
+      const long rx = vp_hook_hits(FV_CPU_RELAX);
       if (p != last_p) {
         last_p = p;
         base_h = h;
-      } else if (h - base_h > livelock_hits) {
+        base_rx = rx;
+      } else if (h - base_h > livelock_hits || rx - base_rx > relax_limit) {
         vp_violation(vp_param_str("livelock_prop", "C02"), "livelock",
-                     "no client operation completed during %ld spin/switch hook hits (relax=%ld switch=%ld wakespin=%ld)",
-                     h - base_h, vp_hook_hits(FV_CPU_RELAX), vp_hook_hits(FV_SWITCH_PRE), vp_hook_hits(FV_WAKE_SPIN));
+                     "no client operation completed during %ld switch/wake-spin steps and %ld cpu_relax spins (totals: relax=%ld switch=%ld wakespin=%ld)",
+                     h - base_h, rx - base_rx, rx, vp_hook_hits(FV_SWITCH_PRE), vp_hook_hits(FV_WAKE_SPIN));
         if (g_runtime_mode) vp_ghost_dump(stderr, 40);
         vp_finish();
       }
